@@ -189,11 +189,11 @@ def pool_spec(fam, which, seed):
             ("TF", "TF", (None, None, None), [(F("2^", "0"), 0.5), (F("1^"), g)]),
             ("TFa", "TF", A, [(F("1^", "3"), 1.5), (F("3^", "1"), 1j)]),
             ("OFF", "OFF", None, [(F("0^", "1"), 2.0), (F("2^", "0"), 0.5)]),
-            ("TF2", "TF", (None, None, None), [(F("2^", "0"), 2.0), ((), -1.5)]),
             ("TFa2", "TF", A, [(F("1^", "3"), 0.25), (F("0^", "0"), 2.0)]),
+            ("TF2", "TF", (None, None, None), [(F("2^", "0"), 2.0), ((), -1.5)]),
             ("TFb", "TF", (6, 2, 0), [(F("1^", "3"), 1.0)]),
         ]
-        ops = full if which == "full" else full[:3]
+        ops = full if which == "full" else full[:4]
     else:
         X0Z1 = word_to_term("XZ")
         full = [
@@ -204,6 +204,7 @@ def pool_spec(fam, which, seed):
             ("QHjw2", "QH", ("jw", False), [(word_to_term("XY"), -1.5), (word_to_term("IZ"), 1.0)]),
             ("QHbk", "QH", ("BK", True), [(word_to_term("ZI"), 1.5)]),
             ("TQ2", "TQ", None, [(word_to_term("IY"), 2.0), ((), 0.5)]),
+            ("QHjwT", "QH", ("JW", True), [(word_to_term("XY"), 1.5), (word_to_term("ZI"), 1j)]),   # = QHjw up to ordering flag
         ]
         ops = full if which == "full" else full[:4]
     scal = list(SCALARS) if which == "full" else ["S2", "S1j"]
